@@ -5,8 +5,11 @@ C14 — model results are a pure, causal function of parameters, states and inpu
 
 Purity: every kernel model `KModel.run` is a total Lean function of (parameter column, input series, state row):
 there is no object or package state in the model, so "same arguments ⇒ same result" is reflexivity
-(`run_deterministic`). That this describes the CODE is what the KHIST correspondence checks: every Run of a history
-of real runs (same object again, fresh object, other models in between) must equal this history-free function.
+(`run_deterministic` — congruence, a TRIVIAL theorem with no content about the code). That this describes the CODE is
+NOT proved: it is decided by the KHIST correspondence (every Run of a history of real runs — same object again, fresh
+object, other models in between — must equal this history-free function) and by the structural purity rule on the Go source.
+
+Causality at the level of the N-cell wrapper `Run` (lifted through `C04.runCells_spec`): `OW/Props/C14Wrapper.lean`.
 
 Causality: outputs up to timestep `t` do not depend on inputs after `t`. `causal_<M> : Causal M.model` for EVERY
 catalogue model (41), proved directly from the loop structure, over any `Num α` (hence also for the `Float` instance):
@@ -25,7 +28,15 @@ open OW OW.Kernels OW.Proofs.Stateless
 variable {α : Type} [Num α]
 
 omit [Num α] in
-/-- Purity of the model: equal parameters, states and inputs give equal outputs and final states. -/
+/-- Purity of the model: equal parameters, states and inputs give equal outputs and final states.
+
+**TRIVIAL — this is congruence of equality (`subst; rfl`), true of every Lean function; it has no content about the code and is NOT
+what decides the purity half of C14.** It only records that `KModel.run` takes nothing but `(p, ins, st)`. That the real `Run` is
+such a function (no package-level variable, cache, pool or object field survives between calls or leaks between cells) is DECIDED,
+not proved: (a) by the KHIST history correspondence (every run of a history of real runs — same object again, fresh object,
+other models / parameters in between — equals this history-free function) and the oracle "identical calls are bit-identical", and
+(b) by the regenerated structural purity rule (`vlib/purity.py`, step `purity_step` of checks/C14.py: no function reachable
+from a kernel assigns a package-level variable or calls a method of one). Neither is a Lean theorem about the Go code. -/
 theorem run_deterministic (km : KModel α) (p p' : List α) (ins ins' : List (List α)) (st st' : List α)
     (hp : p = p') (hi : ins = ins') (hs : st = st') : km.run p ins st = km.run p' ins' st' := by
   subst hp; subst hi; subst hs; rfl
